@@ -499,7 +499,7 @@ fn run_workload(plan: &Plan, w: &Workload, run_index: u64, seed: u64, cov: &mut 
         })
         .or_default() += 1;
     *cov.delivery_hist
-        .entry(["ints", "bytes", "mixed"][w.delivery as usize % 3].into())
+        .entry(if w.via_mem { "library_memsource".into() } else { ["ints", "bytes", "mixed"][w.delivery as usize % 3].into() })
         .or_default() += 1;
     *cov.bits_hist.entry(w.bits.to_string()).or_default() += 1;
 
